@@ -453,7 +453,7 @@ func checkC15(cc any) *ev.Verdict {
 			v.HarnessError = fmt.Sprintf("reference parser rejects generated text %q", p.Text)
 			return v
 		}
-		if d := gen.Compare(want, rv.Script, false); d != "" {
+		if d := gen.Compare(want, rv.Script, true); d != "" {
 			v.HarnessError = fmt.Sprintf("reference parser disagrees with the generator on %q: %s", p.Text, d)
 			return v
 		}
@@ -606,4 +606,96 @@ func containmentViolation(s *gen.Script) string {
 		}
 	}
 	return msg
+}
+
+// ---------------------------------------------------------------- C15T: arbitrary valid text
+
+func init() {
+	ev.Register(&ev.Prop{
+		ID:    "C15T",
+		Rule:  "texts that the reference recogniser accepts: every corpus script as it is (exhaustive), and generated ones - corpus scripts and grammar-complete scripts whose tokens are re-joined with random separators (blanks, tabs, LF, CRLF, lone CR, line and block comments, nothing), then mutated by the C14 mutators (the mutants that stay valid count); oracle: the real tree equals the tree built by the independent reference parser (recursive descent over the reference lexer's tokens) in structure, literal values and in every range; containment through the repository's Range.Contains; non-trivial = the text is not a corpus script as it is",
+		New:   func() any { return &TextCase{} },
+		Check: checkC15T,
+		Enumerate: func(tier string, shard, nshards int, visit func(any) bool) (string, bool) {
+			seeds := loadSeeds()
+			for i, s := range seeds {
+				if i%nshards != shard {
+					continue
+				}
+				if !visit(&TextCase{Bytes: []byte(s), Note: "corpus"}) {
+					return "", false
+				}
+			}
+			return fmt.Sprintf("the %d corpus scripts as they are", len(seeds)), true
+		},
+	})
+	Generators["C15T"] = func(t *rapid.T, tier string) any {
+		text, toks := baseText(t, tier)
+		// re-join the tokens with random separators
+		if len(toks) > 0 && gen.Chance(t, "relayout", 70) {
+			lay := gen.RandomLayout(t)
+			var sb strings.Builder
+			for i, tk := range toks {
+				prev := ""
+				if i > 0 {
+					prev = toks[i-1]
+				}
+				sb.WriteString(lay.Sep(i, prev, tk))
+				sb.WriteString(tk)
+			}
+			sb.WriteString(lay.Sep(len(toks), toks[len(toks)-1], ""))
+			text = sb.String()
+		}
+		note := "relayout"
+		if gen.Chance(t, "mutate", 30) {
+			text, note = mutateText(t, text, toks)
+		}
+		return &TextCase{Bytes: []byte(text), Note: note}
+	}
+}
+
+func checkC15T(cc any) *ev.Verdict {
+	c := cc.(*TextCase)
+	v := &ev.Verdict{}
+	text := string(c.Bytes)
+	ref := syntax.Parse(text)
+	if ref.Uncertain || !ref.Valid {
+		v.Skipped = "the reference recogniser does not accept the text (C14 owns validity)"
+		return v
+	}
+	if hasInt64Overflow(ref.Tokens) {
+		v.Skipped = "integer literal beyond 64 bits (known finding of C14)"
+		return v
+	}
+	if !utf8.ValidString(text) {
+		v.Skipped = "not valid UTF-8 (the input stream replaces each bad byte by U+FFFD; not a script text)"
+		return v
+	}
+	got, nerr, firstErr, pan, convErr := parseAndConvert(text)
+	if pan != "" {
+		v.Skipped = "parser panic (C14 owns this)"
+		return v
+	}
+	if nerr != 0 {
+		v.Skipped = "valid text rejected (C14 owns this): " + firstErr
+		return v
+	}
+	if convErr != nil {
+		return v.Failf("nil-node", "the tree of the valid text %q has a hole: %v", text, convErr)
+	}
+	if d := gen.Compare(ref.Script, got, false); d != "" {
+		return v.Failf("structure", "%q: the parsed tree differs from the reference parser's: %s", text, d)
+	}
+	if d := gen.Compare(ref.Script, got, true); d != "" {
+		return v.Failf("range", "%q: %s", text, d)
+	}
+	if msg := containmentViolation(got); msg != "" {
+		return v.Failf("containment", "%q: %s", text, msg)
+	}
+	v.NonTrivial = c.Note != "corpus"
+	if gen.HasNonASCII(text) {
+		v.Label("non-ascii")
+	}
+	v.Label("note:" + strings.SplitN(c.Note, ":", 2)[0])
+	return v
 }
